@@ -137,6 +137,18 @@ func ruleC01(w *World) {
 	w.ruleSignGuards("C01.R2", a, g)
 	w.ruleVerdictProvenance("C01.R3", a.verify, "bls_verify", a)
 	w.ruleIdentityFlag("C01.R4", a)
+	// R5: the domain tag and ciphersuite are folded into the KMAC key and reach the hash unmodified
+	w.floor("C01.R5", 4)
+	w.ruleKmacInitBlock("C01.R5")
+	if ctor := w.fn(rootPath, "NewExpandMsgXOFKMAC128"); ctor != nil {
+		suite, _ := w.constStr(rootPath, "blsSigCipherSuite")
+		for _, r := range returns(ctor) {
+			s := render(r.Results[0])
+			w.check(strings.Contains(s, fmt.Sprintf("(%s + %q)", P(ctor, 0), suite)), "C01.R5", fnKey(ctor)+"/key", r.Pos(), "hasher key = domainTag ‖ signature ciphersuite", "signature hasher is not keyed with domainTag ‖ ciphersuite: "+s)
+		}
+	} else {
+		w.undecided("C01.R5", "anchor:NewExpandMsgXOFKMAC128", token.NoPos, "unresolved anchor")
+	}
 }
 
 func (w *World) ruleVerifyGuards(rule string, a *blsAnchors, g *ssa.Function) {
@@ -1365,6 +1377,7 @@ func ruleC16(w *World) {
 			"signs sk.PublicKey().Encode() with sk", "BLSGeneratePOP does not sign the encoding of its own public key: "+render(c.(ssa.Value)))
 		w.requireFacts("C16.R3", fnKey(gpop)+"/typeguard", c.(ssa.Instruction), sk+".(*"+a.prT.Obj().Name()+")#1 == true")
 	}
+	w.ruleKmacInitBlock("C16.R2")
 	// R4: identity key rejected in Verify (shared with C01.R2)
 	sites := cgoCalls(a.verify, "bls_verify")
 	if len(sites) == 1 {
